@@ -663,12 +663,21 @@ class Authorization(Endpoint):
             authn_event["valid_until"] = utc_time_sans_frac() + _exp_in
 
         _token_usage_rules = _context.authz.usage_rules(request["client_id"])
+        # the subject identifier follows the client's registered subject type; for pairwise
+        # subjects the sector is the registered sector identifier or else the redirect host
+        _cinfo = _context.cdb.get(request["client_id"]) or {}
+        _sub_type = _cinfo.get("subject_type") or "public"
+        _sector_id = ""
+        if _sub_type == "pairwise":
+            _sector_id = _cinfo.get("sector_id") or urlparse(request.get("redirect_uri", "")).netloc
         return _mngr.create_session(
             authn_event=authn_event,
             auth_req=request,
             user_id=user_id,
             client_id=request["client_id"],
+            sub_type=_sub_type,
             token_usage_rules=_token_usage_rules,
+            sector_identifier=_sector_id,
         )
 
     def _login_required_error(self, redirect_uri, request):
